@@ -40,7 +40,14 @@ THEOREMS = [
     'Sbepp.Properties.C07.rendering_flags',
     'Sbepp.Properties.C07.literal_sites_fit_full_false',
     'Sbepp.Properties.C07.literal_sites_fit_partial',
+    'Sbepp.Properties.C07.header_fillers_fit',
+    'Sbepp.Properties.C07.filler_range_is_representable',
     'Sbepp.Properties.C07.literal_sites_fit_checked',
+    'Sbepp.Properties.C07.literal_sites_fit_gap',
+    'Sbepp.Properties.C07.float_header_free',
+    'Sbepp.Properties.C07.duplicate_case_free',
+    'Sbepp.Properties.C07.enum_rule_is_validators',
+    'Sbepp.Properties.C07.fixed_header_classes',
     'Sbepp.Properties.C07.defaults_fit',
     'Sbepp.Properties.C07.integer_literal_value',
     'Sbepp.Properties.C07.strip_leading_zeros_value',
@@ -333,9 +340,10 @@ class Run:
                 chk.report_unproved('model-wellformed', {'answer': a[:300], 'schema_xml': open(c.xml).read()})
                 continue
             if not c.accepted_model:
+                # the generated code is still compiled and judged: a validator rule that got lost shows up as the
+                # compile failure it was there to prevent
                 chk.report_unproved('impl≠model: sbeppc accepts a schema that violates the acceptance conditions the '
                                     'theorems assume', {'schema_xml': open(c.xml).read(), 'model': a[:500]})
-                continue
             for what, src in c.jobs:
                 for cxx, std in self.configs:
                     jobs.append((c, what, src, cxx, std))
@@ -371,7 +379,7 @@ class Run:
                     for c2, what2, _, cxx2, std2 in followers.get(key, []):
                         c2.results[(what2, cxx2, std2)] = (rc, log)
         for c in cases:
-            if c.rc == 0 and c.problems is not None and c.accepted_model:
+            if c.rc == 0 and c.problems is not None:
                 self.judge(c)
 
     def judge(self, c):
